@@ -236,3 +236,23 @@ Theorem C14_uint64_model_agrees_on_valid_archives :
        = brp_run hok hdrdec o seek (v2_file hi lo ioff pad (enc_payload roots bs) trailer) w).
 Proof. exact c14_run64_valid. Qed.
 Print Assumptions C14_uint64_model_agrees_on_valid_archives.
+
+(* CARv2: a prefix that still holds the whole data payload (cut anywhere in the index padding, the
+   index or whatever follows) walks exactly like the whole file: same steps, same end. *)
+Theorem C14_carv2_prefix_holding_the_payload_walks_like_the_whole_file :
+  forall hok hdrdec o seek roots bs w hi lo ioff pad trailer k,
+    hdrdec (enc_header (Some roots) 1) = Some (roots, 1) ->
+    blen (enc_header (Some roots) 1) <= o_maxh o -> blen (enc_header (Some roots) 1) < two63 ->
+    Forall (block_ok (o_maxs o)) bs -> Forall (fun b => cid_stream_ok (fst b)) bs ->
+    (o_trusted o = false -> Forall (hash_good hok) bs) ->
+    hdrdec pragma_body = Some ([], 2) -> 10 <= o_maxh o ->
+    hi < two64 -> lo < two64 -> ioff < two63 ->
+    51 + blen pad < two63 -> blen (enc_payload roots bs) < two63 ->
+    51 + blen pad + blen (enc_payload roots bs) <= k ->
+    exists st0 st0' steps e fin fin',
+      brp_run hok hdrdec o seek (v2_file hi lo ioff pad (enc_payload roots bs) trailer) w
+      = Ok (2, roots, st0, (steps, (e, fin))) /\
+      brp_run hok hdrdec o seek (take k (v2_file hi lo ioff pad (enc_payload roots bs) trailer)) w
+      = Ok (2, roots, st0', (steps, (e, fin'))).
+Proof. exact c14_prefix_walk_v2_after_payload. Qed.
+Print Assumptions C14_carv2_prefix_holding_the_payload_walks_like_the_whole_file.
